@@ -51,6 +51,7 @@ ALPHABET = list('abcxyzABC0123456789.:/?#@[]%\\ +&=-_~;,!$\'()*<>"`{}|^') + [
     'javascript:', 'data:', 'file:', 'HTTP:', 'localhost', 'localhost:', '0x', '0x7f', '08', '4294967296',
     '-1', '1e3', '1_0',
     # path parameters and other scheme-specific syntax (RFC 1738 ;type= of FTP URLs, gopher item types, ws queries)
+    '?a&a=', '?download&download=1', '?debug=true&debug', '?&=', '?x&x&x=1&=&', '&a&a=1', '?=&', '?a=1&a', ';a&a=2',
     ';type=a', ';type=i', ';type=d', ';type=', ';type=x', ';type=binary', ';type=%61', ';type=a/b', ';TYPE=A', ';type', ';', ';;', ';a=b;c',
     '/f;type=', '/dir/;type=d', '%3Btype=a', ';type=a?x', ';type=a#y', '/0', '/1/x', '/9', '/h', '\t70', '%09', '/%2F', '/%2f%2E%2e']
 PREFIXES = ['', '', 'http://', 'http://', 'https://', 'ftp://', 'HTTP://', 'http:', 'http:/', 'http:///',
